@@ -60,6 +60,22 @@ Proof.
     cbn [rev map]. rewrite <- app_assoc. reflexivity.
 Qed.
 
+Lemma agg_clean_units : forall ns fuel, (length ns < fuel)%nat ->
+  Forall (fun n => 1 <= zlen n < 65536) ns ->
+  agg_clean fuel false (concat (map unit_bytes ns)) = true.
+Proof.
+  induction ns as [|n t IH]; intros fuel Hf Hall; (destruct fuel as [|fuel]; [cbn [length] in Hf; lia|]).
+  - reflexivity.
+  - apply Forall_cons_iff in Hall as [Hn Hall]. cbn [map concat]. unfold unit_bytes at 1.
+    pose proof (put16_be16 (u16 (zlen n)) ltac:(unfold u16; lia)) as P.
+    destruct (put16 (u16 (zlen n))) as [|a [|b [|? ?]]]; try contradiction. destruct P as (P & _).
+    unfold u16 in P. rewrite Z.mod_small in P by lia.
+    cbn [app agg_clean]. rewrite P. rewrite zlen_app.
+    pose proof (zlen_nonneg (concat (map unit_bytes t))).
+    replace (zlen n + zlen (concat (map unit_bytes t)) <? zlen n) with false by lia.
+    rewrite drop_app_exact. apply IH; [cbn [length] in Hf; lia|exact Hall].
+Qed.
+
 Lemma units_long : forall ns, (length ns <= length (concat (map unit_bytes ns)))%nat.
 Proof.
   induction ns as [|n t IH]; [cbn; lia|]. cbn [map concat length]. rewrite app_length.
@@ -163,6 +179,7 @@ Proof.
     change (unit_bytes n2 ++ concat (map unit_bytes t)) with (concat (map unit_bytes (n2 :: t))).
     match goal with |- context [agg_others ?fu false _ []] => assert (Hfu : (length (n2 :: t) < fu)%nat) end.
     { pose proof (units_long (n2 :: t)). rewrite app_length. lia. }
+    rewrite (agg_clean_units (n2 :: t) _ Hfu Hall'). cbn [negb].
     rewrite (agg_others_roundtrip (n2 :: t) _ [] Hfu Hall').
     cbn [rev app map].
     pose proof (zlen_nonneg (unit_bytes n2)). pose proof (zlen_nonneg (concat (map unit_bytes t))).
